@@ -195,6 +195,11 @@ def main(argv=None):
         # the extension no longer builds: the repo does not compile -> not a property verdict
         print(f"BUILD-ERROR {e.what}\n{e.log[-3000:]}")
         return 2
+    # every temporary file of the run (pyTME's own memory-map files included, also in worker processes) goes into the
+    # scratch directory, which is removed at exit
+    import tempfile
+    os.environ["TMPDIR"] = env.scratch()
+    tempfile.tempdir = env.scratch()
     ctx = Ctx(pid, a.tier, seed)
     mod = importlib.import_module(f"pv.props.{pid.lower()}")
 
